@@ -500,10 +500,9 @@ func TestC14(t *testing.T) {
 			st.Count("discarded_vm_budget")
 			return
 		}
-		if sig == "compile-error" {
-			t.Fatalf("HARNESS: @/%s/: %s", res, what)
-		}
 		if sig != "" {
+			// a regex of the stated subset that does not compile reports nothing at all:
+			// that is a violation too (K4 / K5 shapes are excluded by construction)
 			Fail(t, Failure{Property: "C14", Kind: "regex", What: fmt.Sprintf("@/%s/ on %q: %s", res, text, what), Case: c, Sig: sig})
 		}
 		st.Count("compared")
